@@ -38,7 +38,7 @@ try:
     _, diff, _ = run(["git", "diff"])
     res["diff_lines"] = len(diff.splitlines())
     # demos
-    demos = sorted(glob.glob(os.path.join(out, "verif_demo_%s*_test.go" % x)) + glob.glob(os.path.join(out, "verif_demo_%s_*test.go" % x)))
+    demos = sorted(set(glob.glob(os.path.join(out, "verif_demo_%s*_test.go" % x)) + glob.glob(os.path.join(out, "verif_demo_%s_*test.go" % x))))
     res["demos"] = []
     placed = []
     for d in demos:
